@@ -32,7 +32,7 @@ def run(ctx):
     ctx.rule("R05.1", "OpenPosition leverage guards (>= 1 and <= 1/initial ratio)", 2)
     ctx.rule("R05.2", "maintenance check after the position store on every Open chain that leaves a position", 3)
     ctx.rule("R05.3", "WithdrawMargin guards, payout and stored margin", 4)
-    ctx.rule("R05.4", "DepositMargin: stored margin and collected amount are the same msg.amount", 2)
+    ctx.rule("R05.4", "DepositMargin: stored margin and collected amount are the same msg.amount", 3)
 
     # ---------------------------------------------------------------- R05.1
     ex = em.exec_step("OpenPosition")
@@ -197,5 +197,29 @@ def run(ctx):
                 pulls = [t for s in em.emitted(q) for t in transfers_of(ix, s) if t[0] == "cw20-transfer-from"]
                 if not pulls or any(dp.c(t[3]) != amt or dp.s(t[1]) != dp.sender or dp.s(t[2]) != dp.self_addr for t in pulls):
                     bad_c = bad_c or "cw20 arm does not pull exactly msg.amount from info.sender into the engine"
+        # the native assertion helper accepts equality only
+        helper = None
+        for q in dp.ok_paths():
+            for e in q.events:
+                if e.target is not None and any(tag(ix.inline(a)) == "agg" and payload(ix.inline(a))[0].endswith("asset::Asset") for a in e.args) \
+                        and "MessageInfo" in " ".join(e.target.locals[i + 1]["ty"] for i in range(e.target.arg_count)):
+                    helper = e.target
+        if helper is None:
+            ctx.lost("R05.4", "native sent-funds assertion helper")
+        else:
+            hb = None
+            selfp = sym.param(helper.key, 0, helper.param_name(0))
+            for p in ix.ok_paths(helper):
+                ok = False
+                for (at, o, _b, _l) in p.conds:
+                    if o is True and tag(at) == "op" and payload(at)[0] == "eq":
+                        l, r = kids(at)
+                        for u, v in ((l, r), (r, l)):
+                            if ix.inline(u) == sym.field(selfp, "amount") and any(tag(x) == "call" and payload(x)[0].endswith("must_pay") for x in sym.walk(v)):
+                                ok = True
+                if not ok:
+                    hb = hb or p
+            ctx.inst("R05.4", "native-assert-equality:%s" % short_fn(helper), hb is None and bool(ix.ok_paths(helper)), helper.where(),
+                     "succeeds only when asset.amount == must_pay(info, denom)" if hb is None else "a success path of the sent-funds assertion is not the equality case (over- or under-payment accepted)")
         ctx.inst("R05.4", "stored-margin", bad_s is None, dp.fn.where(), bad_s or "stored margin = position.margin + msg.amount")
         ctx.inst("R05.4", "collected-amount", bad_c is None and kinds == {"native", "cw20"}, dp.fn.where(), bad_c or "native: sent == msg.amount asserted; cw20: TransferFrom(info.sender -> engine, msg.amount)")
